@@ -2068,7 +2068,7 @@ class _GroupElem(ABC):
             matrixType = MatrixType.mass
             jacobian_e_pg = self.Get_jacobian_e_pg(matrixType, absoluteValues=False)
             invF_e_pg = self.Get_invF_e_pg(matrixType)
-            dN_tild = self._dN()
+            N_tild = self._N()
             xiOrigin = self.origin  # origin of the reference element (ξ0,η0)
 
             # Check whether iterative resolution is required
@@ -2129,9 +2129,9 @@ class _GroupElem(ABC):
                     # This is the most time-consuming method.
                     # We need to construct the Jacobian matrices here.
                     def Eval(xi: _types.FloatArray, xP: _types.FloatArray):
-                        dN = _GroupElem._Eval_Functions(dN_tild, xi.reshape(1, -1))
-                        F = dN[0] @ coordElemBase[:, :dim]  # jacobian matrix [J]
-                        J = x0 + (xi - xiOrigin) @ F - xP  # cost function
+                        N = _GroupElem._Eval_Functions(N_tild, xi.reshape(1, -1))
+                        # cost function: x(xi) - xP with the isoparametric map x(xi) = N(xi) . x_e
+                        J = N[0, 0] @ coordElemBase[:, :dim] - xP
                         return J
 
                     xiP = []
